@@ -19,5 +19,6 @@ def register(reg):
         ensures=lambda result, seed: _rng_unchanged(),
         exc_ensures={'BodyException': lambda seed: _rng_unchanged()},
         canaries={'seeded_state_kept': lambda result, seed: smt.CURRENT_CTX.ghost['RNG'] != smt.CURRENT_CTX.ghost['RNG_initial']},
+        native_oracle=__import__('contracts.native', fromlist=['x']).tmp_seed_oracle,
         notes='ghost RNG = state of the global NumPy generator; the with-body (yield) may change it arbitrarily and may raise',
     ))
